@@ -66,6 +66,13 @@ def run(ctx):
             continue
         time_t, series = T.to_term(r[0]), T.to_term(r[1])
         irf = T.find_ops(series, "irfft")
+        if fname(time_t) == "arange" and len(time_t.args) == 3 and not time_t.args[2].is_Integer:
+            a0, a1_, st_ = time_t.args
+            ctx.bad("R16.1", f"surface_timeseries[{cname}][sample count]",
+                    "the time axis is built with np.arange and a non-integer step: its length is ceil((stop-start)/step) evaluated in "
+                    "floating point and can be one more than the number of samples of the series for some sampling rates",
+                    f_ts.loc(), derived=op("fpceil", (a1_ - a0) / st_), required="np.linspace(..., num=<number of samples>)")
+            continue
         if fname(time_t) != "linspace" or len(irf) != 1 or "freqs" not in rec or fname(T.to_term(rec["freqs"])) != "linspace":
             ctx.unsure("R16.1", f"surface_timeseries[{cname}]", "time axis / inverse FFT / frequency grid not in the modelled shape",
                        f_ts.loc(), derived=series)
